@@ -284,7 +284,7 @@ def build(ctx):
     from ..oblig import Ctx
     ctx19 = Ctx("C08", ctx.tier, ctx.seed)
     c19obs = {o.id: o for o in c19.build(ctx19)}
-    for oid in ("pvt.rows", "pvt.grid", "sutton.frame"):
+    for oid in ("pvt.rows", "pvt.grid", "pvt.pure", "sutton.frame"):
         src = c19obs[oid]
         obs.append(Obligation("dep." + oid, "[contract relied upon, C19] " + src.statement + " (so the table route and the quadrature route integrate the same mu(p) Z(p))", src.run, src.functions, src.backend, src.replay))
     return obs
